@@ -45,7 +45,9 @@ def _exact(name, beta0, b):
     from eko.kernels import as4_evolution_integrals as as4
     from eko.kernels import evolution_integrals as ei
 
-    bl = b[1:4]
+    # the normalised coefficients as a caller may hold them: a list, or (every other cell instance) one NumPy
+    # array that is handed to roots() and then to the integrals
+    bl = b[1:4] if int(round(b[1] * 1e6)) % 2 else np.array(b[1:4], dtype=float)
 
     def n3(which):
         def f(a1, a0):
